@@ -129,13 +129,14 @@ def t_strat(strat, fmt):
 # ------------------------------------------------------------------ result parsing
 
 class Result:
-    __slots__ = ("kind", "shape", "vals", "extra", "raw")
+    __slots__ = ("kind", "shape", "vals", "extra", "raw", "payload")
 
     def __init__(self, raw):
         self.raw = raw
         self.shape = None
         self.vals = None
         self.extra = ""
+        self.payload = ""
         toks = raw.split()
         self.kind = toks[0] if toks else "empty"
         if self.kind == "ok":
@@ -153,7 +154,9 @@ class Result:
         elif self.kind in ("berr", "idx", "mono"):
             self.extra = " ".join(toks[1:])
         elif self.kind == "oob":
-            self.extra = " ".join(toks[1:])
+            # `oob <coordinate> <value>`: what the error message names; `!flags`: buffer accounting
+            self.payload = " ".join(t for t in toks[1:] if not t.startswith("!"))
+            self.extra = " ".join(t for t in toks[1:] if t.startswith("!"))
 
     def outcome(self):
         """outcome kind + shape, without values"""
